@@ -125,8 +125,15 @@ def parent_main(args) -> int:
     merged = {"evaluations": 0, "nontrivial": set(), "classes": {}, "known": {}, "part_evals": {}, "samples": [],
               "notes": {}}
     harness_error = False
+    # a wall-clock cap per run (hang protection only - far above any observed run; expiry = inconclusive, exit 2)
+    cap = float(os.environ.get("VCHECK_RUN_TIMEOUT", "2400" if args.tier == "quick" else "21600"))
     for i, out, p, errf in procs:
-        p.wait()
+        try:
+            p.wait(timeout=max(1.0, cap - (time.time() - t0)))
+        except subprocess.TimeoutExpired:
+            p.kill()
+            p.wait()
+            sys.stderr.write(f"INCONCLUSIVE: shard {i} still running after {cap:.0f} s wall clock - killed (not a verdict)\n")
         errf.seek(0)
         se = errf.read()
         errf.close()
